@@ -31,6 +31,7 @@ import (
 
 	"testing/synctest"
 
+	"github.com/slackhq/nebula/header"
 	sk "github.com/slackhq/nebula/internal/verifsimkit"
 )
 
@@ -44,6 +45,8 @@ type goNodeWorld struct {
 	mw   *meshWorld
 	rc   *sk.RunCtx
 	held []*simDatagram
+	// recvErrors counts recv_error datagrams seen on the wire in any phase
+	recvErrors int
 }
 
 // grab collects what the nodes emitted (instead of putting it on the simulated network) and drains worker queues.
@@ -64,6 +67,9 @@ func (g *goNodeWorld) grab() {
 				progress = true
 			}
 			if len(n.conn.out) > 0 {
+				for _, d := range n.conn.out {
+					g.noteWire(d)
+				}
 				g.held = append(g.held, n.conn.out...)
 				n.conn.out = nil
 				progress = true
@@ -74,6 +80,16 @@ func (g *goNodeWorld) grab() {
 		}
 	}
 	g.rc.HarnessError("grab did not quiesce")
+}
+
+// noteWire: a recv_error on the wire means some node received traffic for a tunnel it does not hold (reordering
+// of data ahead of the handshake reply, or a closed tunnel); its peer will tear the tunnel down, which legitimately
+// loses what is in flight or queued behind it.
+func (g *goNodeWorld) noteWire(d *simDatagram) {
+	var h header.H
+	if h.Parse(d.data) == nil && h.Type == header.RecvError {
+		g.recvErrors++
+	}
 }
 
 func (g *goNodeWorld) advance(dt time.Duration) {
@@ -177,6 +193,16 @@ func runGoNode(rc *sk.RunCtx, focus string) {
 		if rc.Failed() {
 			return
 		}
+		if sk.Verbose() {
+			var hs []string
+			for _, d := range g.held {
+				var h header.H
+				h.Parse(d.data)
+				hs = append(hs, fmt.Sprintf("n%d>%v %s/%d idx=%d ctr=%d", d.src, d.to, h.Type, h.Subtype, h.RemoteIndex, h.MessageCounter))
+			}
+			rc.Logf("prelude step %d: pendingA=%d estA=%d pendingB=%d estB=%d held=%v", s, len(mw.nodes[0].f.handshakeManager.vpnIps), len(mw.nodes[0].f.hostMap.Indexes),
+				len(mw.nodes[1].f.handshakeManager.vpnIps), len(mw.nodes[1].f.hostMap.Indexes), hs)
+		}
 	}
 	if !checkInv("prelude") {
 		return
@@ -276,6 +302,7 @@ func runGoNode(rc *sk.RunCtx, focus string) {
 	}
 	g.held = nil
 	horizon := w.now + 15*time.Second
+	mw.onWire = func(from *simNode, d *simDatagram) { g.noteWire(d) }
 	if focus != "C32" {
 		mw.afterEvent = func(name string) { checkInv(name) }
 	}
@@ -309,6 +336,10 @@ func runGoNode(rc *sk.RunCtx, focus string) {
 			}
 		}
 		rc.Count("probe.markers_lost", int64(lost))
+		if g.recvErrors > 0 {
+			mayDrop = true
+			rc.Count("probe.runs_with_recv_error", 1)
+		}
 		if lost > 0 && !mayDrop {
 			var ids []uint64
 			for id := uint64(1); id <= mw.nextID; id++ {
